@@ -2892,7 +2892,8 @@ func _range(n *node) {
 	var an *node
 	if len(n.child) == 4 {
 		an = n.child[2]
-		index1 := n.child[1].findex // array value location in frame
+		index1 := n.child[1].findex        // array value location in frame
+		doValue := n.child[1].ident != "_" // no location in frame for a blank value
 		if isString(an.typ.TypeOf()) {
 			// Special variant of "range" for string, where the index indicates the byte position
 			// of the rune in the string, rather than the index of the rune in array.
@@ -2909,7 +2910,9 @@ func _range(n *node) {
 				// Compute byte position of the rune in string
 				pos := a.Slice(0, i).Convert(stringType).Len()
 				f.data[index0].SetInt(int64(pos))
-				f.data[index1].Set(a.Index(i))
+				if doValue {
+					f.data[index1].Set(a.Index(i))
+				}
 				return tnext
 			}
 		} else {
@@ -2922,7 +2925,9 @@ func _range(n *node) {
 				if i >= a.Len() {
 					return fnext
 				}
-				f.data[index1].Set(a.Index(i))
+				if doValue {
+					f.data[index1].Set(a.Index(i))
+				}
 				return tnext
 			}
 		}
